@@ -76,7 +76,8 @@ def draw_cfg(st):
 def run_one(seed, dec):
     cfg = draw_cfg(dec.stream("cfg"))
     rc = RunCtx(ID, seed, dec, cfg)
-    from eliot.logwriter import ThreadedWriter, _STOP
+    from eliot.logwriter import ThreadedWriter
+    _STOP = None
     e = rc.eliot
     s = Sched(dec.stream("sched"), p_switch=cfg["p_switch"], gran=cfg["gran"], max_steps=600000,
               traced=["logwriter.py", "_output.py"])
@@ -130,7 +131,8 @@ def run_one(seed, dec):
             # snapshot for the per-cycle check
             checks.append({"cycle": ci, "stop_inv": stop_inv, "fired": fired, "started": started,
                            "delivered": [r.msg.get("nid") for r in dest.records],
-                           "puts": list(q.put_log), "thread_alive": w._thread.is_alive()})
+                           "puts": list(zip(q.put_stamps, q.put_log)),
+                           "thread_alive": bool(getattr(w, "_thread", None) is not None and w._thread.is_alive())})
             for a in prods:
                 s.yield_point("join")
                 s.join(a)
@@ -183,20 +185,23 @@ def oracle(rc, cfg, dest, checks, offered, STOP):
             raise Violation("duplicated", "message nid=%s was passed to the wrapped destination twice" % n)
         seen.add(n)
     for c in checks:
-        puts = c["puts"]
-        stops = [i for i, x in enumerate(puts) if x is STOP]
-        if len(stops) != c["cycle"] + 1:
-            raise Violation("stop_sentinel", "cycle %d: %d stop sentinels in the queue log" % (c["cycle"], len(stops)))
-        before = [x.get("nid") for x in puts[:stops[-1]] if x is not STOP]
+        # messages in the order they were put on the queue (whatever else the implementation queues --
+        # e.g. a stop marker -- is not a dict and is ignored)
+        put_msgs = [(stamp, x.get("nid")) for stamp, x in c["puts"] if isinstance(x, dict)]
+        order = [n for _s, n in put_msgs]
         got = c["delivered"]
-        if got != before:
-            n = min(len(got), len(before))
-            i = next((k for k in range(n) if got[k] != before[k]), n)
-            how = "lost" if len(got) < len(before) else ("extra" if len(got) > len(before) else "order")
-            raise Violation(("not_passed_on", {"how": how}),
+        if got != order[:len(got)]:
+            n = min(len(got), len(order))
+            i = next((k for k in range(n) if got[k] != order[k]), n)
+            raise Violation(("not_passed_on", {"how": "order"}),
+                            "cycle %d: the wrapped destination was called with %s, the queue received %s "
+                            "(first difference at %d)" % (c["cycle"], got, order, i))
+        before = [n for stamp, n in put_msgs if stamp < c["stop_inv"]]
+        missing = [n for n in before if n not in got]
+        if missing:
+            raise Violation(("not_passed_on", {"how": "lost"}),
                             "cycle %d: when stopService's deferred fired the wrapped destination had been called "
-                            "with %s, the queue held %s before the stop sentinel (first difference at %d)" % (
-                                c["cycle"], got, before, i))
+                            "with %s; queued before the stop request but not written: %s" % (c["cycle"], got, missing))
         if c["thread_alive"]:
             raise Violation("reader_alive", "cycle %d: reader thread still alive after stopService completed" % c["cycle"])
         # everything whose __call__ returned before stopService was invoked is among them
